@@ -116,7 +116,9 @@ Finished == /\ pc = "idle" /\ ~died /\ named = NoStep /\ runs > 0
                ELSE \A i \in 0..MaxIter - 1 : <<i, B - 1>> \in completed
 
 (* ------------- the script ------------- *)
-Start == /\ pc = "idle" /\ ~died /\ named = NoStep /\ ~Finished
+\* (a finished retrospective simulation may be started again: the script must then find nothing to do)
+Start == /\ pc = "idle" /\ ~died /\ named = NoStep
+         /\ (Finished => Mode = "retrospective" /\ runs <= MaxCrash + 1)
          /\ (Mode = "prospective" => runs < MaxIter + MaxCrash + 1)
          /\ pc' = "scan" /\ runs' = runs + 1
          /\ UNCHANGED <<idirs, pdirs, files, ScriptVars, named, crashes, Ghosts>>
